@@ -357,3 +357,146 @@ Proof.
   rewrite (sum_rows_ok _ _ _ S Hh). cbn [obind]. unfold ssub.
   exists rs', 0, (tk - lenN (flatten rs')). repeat split; auto. intros _. lia.
 Qed.
+(* ------------------------------------------------------------------ intersect_ranges *)
+Lemma intersect_nil_l b : intersect_ranges [] b = [].
+Proof. destruct b; reflexivity. Qed.
+Lemma intersect_nil_r a : intersect_ranges a [] = [].
+Proof. destruct a as [|[s e] ta]; reflexivity. Qed.
+Lemma intersect_cons s1 e1 ta s2 e2 tb :
+  intersect_ranges ((s1, e1) :: ta) ((s2, e2) :: tb) =
+  (if N.max s1 s2 <? N.min e1 e2 then [(N.max s1 s2, N.min e1 e2)] else [])
+    ++ (if e1 <=? e2 then intersect_ranges ta ((s2, e2) :: tb) else intersect_ranges ((s1, e1) :: ta) tb).
+Proof. cbn [intersect_ranges]. destruct (e1 <=? e2); reflexivity. Qed.
+
+Lemma in_hd x s1 e1 s2 e2 :
+  In x (flatten (if N.max s1 s2 <? N.min e1 e2 then [(N.max s1 s2, N.min e1 e2)] else []))
+  <-> (s1 <= x < e1 /\ s2 <= x < e2).
+Proof.
+  destruct (N.ltb_spec (N.max s1 s2) (N.min e1 e2)).
+  - rewrite flatten_cons, in_app_iff, in_flat_range. cbn [flatten flat_map In]. lia.
+  - cbn [flatten flat_map In]. lia.
+Qed.
+
+Lemma in_intersect a : forall b loa hia lob hib x,
+  sorted_in loa hia a -> sorted_in lob hib b ->
+  (In x (flatten (intersect_ranges a b)) <-> In x (flatten a) /\ In x (flatten b)).
+Proof.
+  induction a as [|[s1 e1] ta IHa]; intros b loa hia lob hib x Ha Hb.
+  - rewrite intersect_nil_l. cbn. tauto.
+  - revert lob Hb. induction b as [|[s2 e2] tb IHb]; intros lob Hb.
+    + rewrite intersect_nil_r. cbn. tauto.
+    + rewrite intersect_cons, flatten_app, in_app_iff, in_hd.
+      cbn [sorted_in] in Ha, Hb. destruct Ha as (A1 & A2 & A3). destruct Hb as (B1 & B2 & B3).
+      pose proof (fun H => sorted_in_bounds _ _ _ x A3 H) as TA.
+      pose proof (fun H => sorted_in_bounds _ _ _ x B3 H) as TB.
+      destruct (N.leb_spec e1 e2) as [L|L].
+      * rewrite (IHa ((s2, e2) :: tb) e1 hia lob hib x A3) by (cbn [sorted_in]; auto).
+        rewrite !flatten_cons, !in_app_iff, !in_flat_range. split.
+        -- intros [H|[H1 H2]]; [lia|]. tauto.
+        -- intros [[H1|H1] [H2|H2]]; try (left; lia); try (right; tauto); specialize (TB H2); lia.
+      * rewrite (IHb e2 B3).
+        rewrite !flatten_cons, !in_app_iff, !in_flat_range. split.
+        -- intros [H|[H1 H2]]; [lia|]. tauto.
+        -- intros [[H1|H1] [H2|H2]]; try (left; lia); try (right; tauto); specialize (TA H1); lia.
+Qed.
+
+Lemma sorted_intersect a : forall b loa hia lob hib,
+  sorted_in loa hia a -> sorted_in lob hib b ->
+  sorted_in (N.min (N.max loa lob) hia) hia (intersect_ranges a b).
+Proof.
+  induction a as [|[s1 e1] ta IHa]; intros b loa hia lob hib Ha Hb.
+  - rewrite intersect_nil_l. cbn [sorted_in]. lia.
+  - revert lob Hb. induction b as [|[s2 e2] tb IHb]; intros lob Hb.
+    + rewrite intersect_nil_r. cbn [sorted_in]. lia.
+    + rewrite intersect_cons.
+      cbn [sorted_in] in Ha, Hb. destruct Ha as (A1 & A2 & A3). destruct Hb as (B1 & B2 & B3).
+      pose proof (sorted_in_le _ _ _ A3) as LA.
+      destruct (N.leb_spec e1 e2) as [L|L].
+      * assert (R : sorted_in (N.min (N.max e1 lob) hia) hia (intersect_ranges ta ((s2, e2) :: tb))).
+        { apply (IHa _ e1 hia lob hib A3). cbn [sorted_in]. auto. }
+        destruct (N.ltb_spec (N.max s1 s2) (N.min e1 e2)); cbn [app sorted_in].
+        -- repeat split; try lia. eapply sorted_in_weaken; eauto; lia.
+        -- eapply sorted_in_weaken; eauto; lia.
+      * assert (R : sorted_in (N.min (N.max loa e2) hia) hia (intersect_ranges ((s1, e1) :: ta) tb)).
+        { apply (IHb e2 B3). }
+        destruct (N.ltb_spec (N.max s1 s2) (N.min e1 e2)); cbn [app sorted_in].
+        -- repeat split; try lia. eapply sorted_in_weaken; eauto; lia.
+        -- eapply sorted_in_weaken; eauto; lia.
+Qed.
+
+Lemma intersect_spec a b loa hia lob hib :
+  sorted_in loa hia a -> sorted_in lob hib b ->
+  flatten (intersect_ranges a b) = filter (fun x => in_ranges x b) (flatten a)
+  /\ sorted_in loa hia (intersect_ranges a b).
+Proof.
+  intros Ha Hb. pose proof (sorted_intersect a b _ _ _ _ Ha Hb) as S.
+  pose proof (sorted_in_le _ _ _ Ha) as L. split.
+  - apply incr_ext.
+    + eapply incr_flatten; eauto.
+    + apply incr_filter. eapply incr_flatten; eauto.
+    + intros x. rewrite (in_intersect a b _ _ _ _ x Ha Hb), filter_In, (in_flatten x b). reflexivity.
+  - eapply sorted_in_weaken; eauto; lia.
+Qed.
+
+(* ------------------------------------------------------------------ DvToValidRanges / full_frag_range *)
+Definition dv_ok (phys : N) (d : list N) : Prop := incr d /\ forall x, In x d -> x < phys.
+
+Lemma dv_inner_spec d : forall n pos,
+  incr d -> (forall x, In x d -> pos <= x < n) -> pos <= n ->
+  sorted_in pos n (dv_inner d n pos)
+  /\ forall x, In x (flatten (dv_inner d n pos)) <-> (pos <= x < n /\ ~ In x d).
+Proof.
+  induction d as [|d0 tl IH]; intros n pos Hi Hb Hp; cbn [dv_inner].
+  - destruct (N.eqb_spec pos n) as [->|Hne].
+    + split; [cbn [sorted_in]; lia|]. intros x. cbn. lia.
+    + split; [cbn [sorted_in]; lia|]. intros x. rewrite flatten_cons, in_app_iff, in_flat_range. cbn. lia.
+  - apply StronglySorted_inv in Hi as [Hi F]. rewrite Forall_forall in F.
+    pose proof (Hb d0 (or_introl eq_refl)) as B0.
+    destruct (N.eqb_spec d0 pos) as [->|Hne].
+    + destruct (IH n (pos + 1) Hi) as [S M].
+      { intros x Hx. specialize (F _ Hx). specialize (Hb x (or_intror Hx)). lia. } { lia. }
+      split; [eapply sorted_in_weaken; eauto; lia|]. intros x. rewrite M. cbn [In].
+      split; [intros [H1 H2]; split; [lia|]; intros [->|H]; [lia | tauto] | intros [H1 H2]; split; [|tauto]].
+      destruct (N.eq_dec pos x) as [->|]; [tauto | lia].
+    + destruct (N.leb_spec n (d0 + 1)) as [L|L].
+      * split; [cbn [sorted_in]; lia|]. intros x. rewrite flatten_cons, in_app_iff, in_flat_range. cbn [flatten flat_map In].
+        split; [intros [H|[]]; split; [lia|]; intros [->|H']; [lia|]; specialize (F _ H'); lia |].
+        intros [H1 H2]. left. destruct (N.eq_dec d0 x) as [->|]; [tauto | lia].
+      * destruct (IH n (d0 + 1) Hi) as [S M].
+        { intros x Hx. specialize (F _ Hx). specialize (Hb x (or_intror Hx)). lia. } { lia. }
+        split; [cbn [sorted_in]; repeat split; try lia; eapply sorted_in_weaken; eauto; lia|].
+        intros x. rewrite flatten_cons, in_app_iff, in_flat_range, M. cbn [In].
+        split.
+        -- intros [H|[H1 H2]]; (split; [lia|]); intros [->|H']; try lia; try tauto. specialize (F _ H'). lia.
+        -- intros [H1 H2]. destruct (N.lt_ge_cases x d0); [left; lia | right]. split; [|tauto].
+           destruct (N.eq_dec d0 x) as [->|]; [tauto | lia].
+Qed.
+
+Definition live_of (phys : N) (dv : option (list N)) : list N :=
+  let dels := match dv with Some d => d | None => [] end in
+  filter (fun off => negb (existsb (N.eqb off) dels)) (seqN 0 (N.to_nat phys)).
+
+Lemma existsb_eqb_in x d : existsb (N.eqb x) d = true <-> In x d.
+Proof.
+  rewrite existsb_exists. split; [intros (y & H & E); apply N.eqb_eq in E; subst; exact H|].
+  intros H; exists x; split; [exact H | apply N.eqb_refl].
+Qed.
+
+Lemma full_frag_range_spec phys dv :
+  match dv with Some d => dv_ok phys d | None => True end ->
+  flatten (full_frag_range phys dv) = live_of phys dv /\ sorted_in 0 phys (full_frag_range phys dv).
+Proof.
+  intros H. unfold live_of. destruct dv as [d|]; cbn [full_frag_range].
+  - destruct H as [Hi Hb]. unfold dv_to_valid_ranges. destruct (N.leb_spec phys 0) as [L|L].
+    + replace phys with 0 by lia. cbn. split; [reflexivity | lia].
+    + destruct (dv_inner_spec d phys 0 Hi) as [S M]. { intros x Hx. specialize (Hb x Hx). lia. } { lia. }
+      split; [|exact S]. apply incr_ext.
+      * eapply incr_flatten; eauto.
+      * apply incr_filter, incr_seqN.
+      * intros x. rewrite M, filter_In, in_seqN, negb_true_iff.
+        rewrite <- not_true_iff_false, existsb_eqb_in, N2Nat.id. intuition lia.
+  - split.
+    + rewrite flatten_cons, flat_range_eq. cbn [flatten flat_map]. rewrite app_nil_r, N.sub_0_r.
+      symmetry. cbn [existsb negb]. induction (seqN 0 (N.to_nat phys)) as [|a l IHl]; cbn [filter]; congruence.
+    + cbn [sorted_in]. lia.
+Qed.
